@@ -47,6 +47,8 @@ fn run_c19(tier: &str) -> i32 {
         let mut plans = plans;
         // abandon one send after k sender polls, for every k: cancellation points deep inside long sends
         plans.push((format!("{rt:?}/abandon-after-k-polls/small-buffers"), Spec { rt, sizes: vec![300, 70000], max_msgs: 3, slots: 0, bidir: false, cancels: false, small_buffers: true, abandon_within: if tier == "thorough" { 40 } else { 24 } }, 0));
+        // several sends abandoned in a row (a retry that is itself abandoned before it made progress)
+        plans.push((format!("{rt:?}/abandoned-retries/3msgs/{}slots/dev{}", if tier == "thorough" { 9 } else { 6 }, if tier == "thorough" { 3 } else { 2 }), Spec { rt, sizes: vec![6000, 70000], max_msgs: 3, slots: if tier == "thorough" { 9 } else { 6 }, bidir: false, cancels: true, small_buffers: true, abandon_within: 0 }, if tier == "thorough" { 3 } else { 2 }));
         plans.push((format!("{rt:?}/abandon-after-k-polls/default-buffers"), Spec { rt, sizes: vec![300, 400_000], max_msgs: 3, slots: 0, bidir: false, cancels: false, small_buffers: false, abandon_within: 6 }, 0));
         for (name, spec, budget) in plans {
             let cfg = Config { budget, ..cfg_base.clone() };
